@@ -31,13 +31,13 @@ Publish(d, da, vl, dl) ==
                              viol |-> {x.p : x \in vl}, vlog |-> vl, dlog |-> dl]})
 
 TInit ==
-  /\ InitWith([map |-> "none", norm |-> "auto", len |-> 0])
+  /\ InitWith([map |-> "none", norm |-> "auto", tbl |-> "mem", defer |-> TRUE, len |-> 0])
   /\ l = 1 /\ drift = FALSE /\ driftAt = 0 /\ tno = 0 /\ vlog = {} /\ dlog = {}
   /\ TLCSet(1, {})
 
 TReset ==
   /\ IsEv("Cfg")
-  /\ cfg' = [map |-> Ev.map, norm |-> Ev.norm, len |-> 0]
+  /\ cfg' = [map |-> Ev.map, norm |-> Ev.norm, tbl |-> Ev.tbl, defer |-> Ev.defer, len |-> 0]
   /\ tbl' = [u \in Users |-> Absent]
   /\ sess' = Closed
   /\ obs' = ObsInit
@@ -78,7 +78,7 @@ C_SAuth  == /\ IsEv("SAuth")
                  /\ dlog' = dlog \cup {[seq |-> Ev.seq, d |-> x] : x \in D}
 C_SOpen  == IsEv("SOpen") /\ SOpen /\ dlog' = dlog
 C_SEhlo  == IsEv("SEhlo") /\ SEhlo /\ dlog' = dlog
-C_SMail  == IsEv("SMail") /\ SMailRes = Ev.res /\ SMail /\ dlog' = dlog
+C_SMail  == IsEv("SMail") /\ SMailRes(Ev.mf) = Ev.res /\ SMail(Ev.mf) /\ dlog' = dlog
 C_SRset  == IsEv("SRset") /\ SRset /\ dlog' = dlog
 C_SClose == IsEv("SClose") /\ SClose /\ dlog' = dlog
 C_End    == IsEv("End") /\ phase' = "end" /\ obs' = Z(obs) /\ dlog' = dlog
